@@ -54,6 +54,9 @@ class RmsNormFusion(pattern.RewriteRuleClassBase):
     ) -> pattern.MatchResult:  # type: ignore[name-defined]
         """Check if the pattern matches conditions for use of SimplifiedLayerNormalization op."""
         check_result = pattern.MatchResult()
+        if x.shape is None or scale.shape is None or scale.shape.rank() > x.shape.rank():
+            # Mul broadcasts both ways; RMSNormalization's scale must broadcast to x.
+            return check_result.fail("Scale must not have a higher rank than the input.", scale)
         # epsilon must be a scalar
         epsilon_value = _ir_utils.get_singleton_value(epsilon)
         if not isinstance(epsilon_value, float):  # TODO: support other types
